@@ -103,20 +103,21 @@ impl<'a, K, V> Iterator for MapIterMut<'a, K, V> {
 }
 impl<K, V> ExactSizeIterator for MapIterMut<'_, K, V> {}
 
-pub enum Entry<'a, K, V> {
-    Occupied(&'a mut V),
-    Vacant(&'a mut Option<(K, V)>, K, &'a mut usize),
+// A struct with an index, not an enum holding references: pointers stored in enum payloads
+// (unions) do not constant-propagate in CBMC and turn every later write into a weak update.
+pub struct Entry<'a, K, V, S> {
+    map: &'a mut VMap<K, V, S>,
+    idx: usize,
+    key: Option<K>,
 }
-impl<'a, K, V> Entry<'a, K, V> {
+impl<'a, K, V, S> Entry<'a, K, V, S> {
     pub fn or_insert(self, v: V) -> &'a mut V {
-        match self {
-            Entry::Occupied(r) => r,
-            Entry::Vacant(slot, k, len) => {
-                *len += 1;
-                *slot = Some((k, v));
-                &mut slot.as_mut().unwrap().1
-            }
+        let Entry { map, idx, key } = self;
+        if let Some(k) = key {
+            map.len += 1;
+            map.slots[idx] = Some((k, v));
         }
+        &mut map.slots[idx].as_mut().unwrap().1
     }
 }
 
@@ -193,12 +194,12 @@ impl<K: Eq, V, S> VMap<K, V, S> {
             None => None,
         }
     }
-    pub fn entry(&mut self, k: K) -> Entry<'_, K, V> {
+    pub fn entry(&mut self, k: K) -> Entry<'_, K, V, S> {
         match self.pos(&k) {
-            Some(i) => Entry::Occupied(&mut self.slots[i].as_mut().unwrap().1),
+            Some(i) => Entry { map: self, idx: i, key: None },
             None => {
                 let i = self.free();
-                Entry::Vacant(&mut self.slots[i], k, &mut self.len)
+                Entry { map: self, idx: i, key: Some(k) }
             }
         }
     }
